@@ -599,6 +599,8 @@ def elem_of(eng, call, it):
         return mk("refv", e) if byref else e
     if op == "range_iter":
         return mk("range_elem", it.args[0], it.args[1], it.args[2])
+    if op == "agg" and it.args[0].endswith("ops::Range") and len(it.args) == 3:
+        return mk("range_elem", it.args[1], it.args[2], call["site"])
     if op == "mapped":
         return it.args[1]
     if op in ("filtered", "cloned_iter", "adapted"):
